@@ -1124,7 +1124,7 @@ def main(argv):
 
     graph = dict(status="ok")
     try:
-        tr.graph_txt, tr.graph_man = PG.translate(open(os.path.join(a.repo, "graphslam", "graph.py")).read())
+        tr.graph_txt, tr.graph_man = PG.translate(open(os.path.join(a.repo, "graphslam", "graph.py")).read(), open(os.path.join(a.repo, "graphslam", "edge", "base_edge.py")).read())
         graph["defs"] = len(tr.graph_man)
     except PG.Untranslatable as e:
         tr.graph_error = str(e)
